@@ -1,6 +1,7 @@
 package main
 
 import (
+	"encoding/base64"
 	"fmt"
 	"strings"
 	"time"
@@ -139,6 +140,9 @@ func c05Str(s string, fhirKind int) c05Val {
 		v.env, v.kind = &dtpb.Code{Value: s}, "FHIR.code"
 	case 3:
 		v.env, v.kind = &dtpb.Uri{Value: s}, "FHIR.uri"
+	case 4: // s must be the canonical base64 text of some bytes
+		raw, _ := base64.StdEncoding.DecodeString(s)
+		v.env, v.kind = &dtpb.Base64Binary{Value: raw}, "FHIR.base64Binary"
 	}
 	return v
 }
@@ -160,6 +164,7 @@ func c05Pool(unitIDs map[string]uint64) []c05Val {
 			add(c05Str(s, 1+i%3), c05Str(s, 2))
 		}
 	}
+	add(c05Str("+//+", 4), c05Str("+//+", 0), c05Str("-__-", 0), c05Str("AD4//w==", 4), c05Str("AD4__w==", 0), c05Str(",", 0), c05Str("aGk=", 4))
 	for _, i := range []int32{0, 1, -1, 2, 10, 2147483647, -2147483648} {
 		o := intOperand(i, "literal")
 		add(c05Val{coq: "VInt " + coqZ(int64(i)), lit: o.lit, kind: "Integer"})
